@@ -31,7 +31,7 @@ ASSUMPTIONS = [
 ]
 BUDGET = {"quick": {"examples": 6400}, "thorough": {"examples": 160000, "deadline_s": 1500}}
 
-CFG = gen.cfg(max_syms=12, min_syms=4, p_choice=45, p_choice_name=50, p_if=20, p_menu=20, p_prompt_cond=35, p_depends=45)
+CFG = gen.cfg(max_syms=12, min_syms=4, p_choice=45, p_choice_name=50, p_if=20, p_menu=20, p_prompt_cond=35, p_depends=45, p_choice_twice=30)
 
 
 @st.composite
